@@ -42,7 +42,7 @@ def polyCheck (toks : List String) : String :=
     let all := pairs fs
     let coeffs := all.take (n + 1)
     let roots := all.drop (n + 1)
-    let tol : Rat := mkRat (10000 * n) (2 ^ 52)
+    let tol : Rat := mkRat (1000000 * n) (2 ^ 52)   -- 10x the loosest harness bound: the harness predicate alarms first, with the input
     if polyAccept tol coeffs roots then "O polyCheck 1" else "O polyCheck 0"
   | _ => "O polyCheck ERR"
 
@@ -53,6 +53,7 @@ def main : IO Unit := do
     if ln.startsWith "I " then out.putStrLn ln.trimAscii.toString
     match tokens ln with
     | "I" :: "polyCheck" :: rest => out.putStrLn (polyCheck rest)
+    | "I" :: "polyFloat" :: _ => out.putStrLn "O polyFloat -"
     | "I" :: "quadRealF" :: args =>
       match args.map hexToFloat with
       | [a, b, c] =>
